@@ -172,8 +172,11 @@ RebindNeeded(v, c) ==
   \/ (IdentityCheck /\ vm[v].cachePtr # cache[c].s)
 \* on a full-memory VM the call is allowed too: the base class ignores the cache, only the remembered key is updated; the VM keeps
 \* hashing over its dataset
+\* The call is also allowed while a pipelined hash is pending (between hash_first / hash_next and hash_next / hash_last): what is pending
+\* is the input and the scratchpad filled from it, neither depends on the cache; the pending hash is then computed over the data bound
+\* when its programs run (ExpectedKey at HashNext / HashLast), and the rebinding leaves sp / pend alone.
 SetCache(v, c) ==
-  /\ vm[v].live /\ vm[v].pend = None
+  /\ vm[v].live
   /\ cache[c].live /\ cache[c].key # None
   /\ IF IsLight(vm[v].kind)
      THEN /\ vm' = [vm EXCEPT ![v] = IF RebindNeeded(v, c) THEN BindCache(vm[v], c) ELSE vm[v]]
